@@ -23,6 +23,7 @@ type SMPRun struct {
 	Q       string `json:"q,omitempty"` // question
 	Traffic []int  `json:"t,omitempty"` // ping-pong rounds before start / before answer / before message 3 is delivered
 	Len     int    `json:"len,omitempty"`
+	Restart int    `json:"restart,omitempty"` // 1: the initiator starts again before the answer; 2: the responder starts its own run instead of answering
 }
 
 // C11Script is a sequence of runs in one session.
@@ -129,6 +130,34 @@ func runC11(sc *C11Script) *sim.Outcome {
 		ask := w.P[b].SMP[len(w.P[b].SMP)-1]
 		if run.Q != "" && (ask.Ev != otr3.SMPEventAskForAnswer || ask.Question != run.Q) {
 			return o.Fail("C11/question", "run %d: question %q arrived as event %v %q", ri, run.Q, ask.Ev, ask.Question)
+		}
+		switch run.Restart % 3 {
+		case 1:
+			// the user starts the authentication again (e.g. retyped the secret) while the run is in progress
+			s.asked = [2]bool{}
+			if c := w.SMPStart(a, run.Q, secA); c.Err != nil {
+				return o.Fail("C11/start-error", "second StartAuthenticate failed: %v", c.Err)
+			}
+			s.Exec(SOp{K: "flush"})
+			if !s.asked[b] {
+				return o.Fail("C11/restart-lost", "run %d: after the initiator restarted the authentication the responder was not asked again; events %v", ri, w.P[b].SMP[nb:])
+			}
+			na, nb = len(w.P[a].SMP), len(w.P[b].SMP)
+			o.Class("restart-by-initiator")
+		case 2:
+			// the asked party starts its own authentication instead of answering: roles swap
+			s.asked = [2]bool{}
+			if c := w.SMPStart(b, run.Q, secB); c.Err != nil {
+				return o.Fail("C11/start-error", "StartAuthenticate by the asked party failed: %v", c.Err)
+			}
+			s.Exec(SOp{K: "flush"})
+			if !s.asked[a] {
+				return o.Fail("C11/restart-lost", "run %d: the asked party started its own authentication but the other side was not asked; events %v", ri, w.P[a].SMP[na:])
+			}
+			a, b = b, a
+			secA, secB = secB, secA
+			na, nb = len(w.P[a].SMP), len(w.P[b].SMP)
+			o.Class("restart-by-responder")
 		}
 		traffic(tr[1] % 3)
 		c = w.SMPAnswer(b, secB)
@@ -294,6 +323,9 @@ func genSMPRun(rt *rapid.T) SMPRun {
 	r.Q = rapid.SampledFrom([]string{"", "", "what is the word?", "ünïcödé ?", "q\twith\ttabs"}).Draw(rt, "q")
 	r.Traffic = []int{rapid.IntRange(0, 2).Draw(rt, "t0"), rapid.IntRange(0, 2).Draw(rt, "t1"), rapid.IntRange(0, 2).Draw(rt, "t2")}
 	r.Len = rapid.IntRange(0, 65000).Draw(rt, "len")
+	if rapid.IntRange(0, 2).Draw(rt, "dorestart") == 0 {
+		r.Restart = rapid.IntRange(1, 2).Draw(rt, "restart")
+	}
 	return r
 }
 
